@@ -163,6 +163,13 @@ func c10Battery(env *core.Env, cc *c10Coll) {
 	}
 	expectItems("last", "%c.last()", last)
 	expectItems("last", "%c.skip(%c.count() - 1)", last)
+	// the argument as the statement writes it: computed from the collection the function is applied to
+	if n > 0 {
+		expectItems("last", "%c.skip(count() - 1)", last)
+		expectItems("partition", "%c.take(count() - 1)", cc.C[:n-1])
+		expectItems("partition", "%c.skip(count())", system.Collection{})
+		expectItems("partition", "%c.take(count())", cc.C)
+	}
 	for i := 0; i < n && i < 4; i++ {
 		expectItems("index", fmt.Sprintf("%%c[%d]", i), cc.C[i:i+1])
 	}
@@ -789,6 +796,16 @@ func c10MixedTypes(env *core.Env, seed uint64) {
 		pick = append(pick, names[rng.Intn(len(names))])
 	}
 	cv := evalopts.EnvVariable("m", coll)
+	for _, f := range pick {
+		fs0 := model.IdentSrc(f)
+		ea := c10Eval(env, "%m.exists("+fs0+".exists())", cv)
+		eb := c10Eval(env, "%m.where("+fs0+".exists()).exists()", cv)
+		if ea.IsPanic() || eb.IsPanic() {
+			env.Violatef(fx.PanicSig("C10", ea), "exists/where(%s.exists()) on mixed types => %s / %s", fs0, ea.Short(), eb.Short())
+		} else if ea.Kind != eb.Kind || (ea.IsValue() && !fx.Same(ea, eb)) {
+			env.Violatef("C10/exists-criterion/differs-from-where-exists/mixed-types", "%d resources of mixed types: `%%m.exists(%s.exists())` = %s but `%%m.where(%s.exists()).exists()` = %s", len(coll), fs0, trunc(ea.Short(), 80), fs0, trunc(eb.Short(), 80))
+		}
+	}
 	for _, f := range pick {
 		fs := model.IdentSrc(f)
 		var want system.Collection
